@@ -20,7 +20,7 @@ RULE = ("frame results produced by the real evaluate_frame for every scene sub-l
         "thorough: the full 10 x 8 pools) x {ego, map rendering} x 2 label policies x critical filters, tabulated by "
         "PerceptionAnalyzer3D with 1 / 3 / 9 area divisions; multi-frame / multi-scene tables from every window of 3 consecutive scenes "
         "(+1 as a second scene); checked: per-status counts, estimate and ground-truth counts, ego-frame x/y/yaw of every row, errors and "
-        "their mean/RMS/max, rates, confusion matrix, label/scene/area/distance selections, get_object_status tallies. state = (frame "
+        "their mean/RMS/max, rates, confusion matrix, label/scene/area/distance selections, get_object_status tallies per scene and over the frames of all scenes at once. state = (frame "
         "kind, areas, policy, per-object status vector); non-trivial = a FP/FN/TN row exists")
 ASSUMPTIONS = [
     "known finding K1 (a ground truth matched by a failing estimate is tabulated in the FP pair and again as FN) is recognised by its "
@@ -436,6 +436,27 @@ def check_case(case, acc):
                         bad("status:gt-in-fp-pair-and-fn", "get_object_status records ground truth %s as FP and FN in frame %d (matched by a failing estimate)" % (g.uuid, fnum))
                     else:
                         bad("status:tally", "get_object_status records ground truth %s %d times in frame %d (%d status objects)" % (g.uuid, cnt, fnum, len(st)))
+    if len(case["scenes"]) > 1:
+        # the status dispatcher handed the frames of ALL scenes at once (two runs analysed together; frame numbers restart in every scene):
+        # each ground truth's total is the number of status entries its frames hold, per status and overall
+        frs = [fr for s, fr, *_ in all_frames]
+        acc.exec()
+        infos = get_object_status(frs)
+        for uu in sorted({g.uuid for fr in frs for g in fr.frame_ground_truth.objects}):
+            st = [i for i in infos if i.uuid == uu]
+            w_ = {"TP": 0, "FP": 0, "FN": 0, "TN": 0}
+            for fr in frs:
+                p = fr.pass_fail_result
+                w_["TP"] += sum(1 for r in p.tp_object_results if r.ground_truth_object is not None and r.ground_truth_object.uuid == uu)
+                w_["FP"] += sum(1 for r in p.fp_object_results if r.ground_truth_object is not None and r.ground_truth_object.uuid == uu)
+                w_["FN"] += sum(1 for o in p.fn_objects if o.uuid == uu)
+                w_["TN"] += sum(1 for o in p.tn_objects if o.uuid == uu)
+            g_ = {"TP": sum(len(i.tp_frame_nums) for i in st), "FP": sum(len(i.fp_frame_nums) for i in st), "FN": sum(len(i.fn_frame_nums) for i in st),
+                  "TN": sum(len(i.tn_frame_nums) for i in st)}
+            tot = sum(len(i.total_frame_nums) for i in st)
+            if g_ != w_ or tot != sum(w_.values()) or len(st) > 1:
+                bad("status:all-scenes-tally", "get_object_status over the frames of all scenes records ground truth %s as %s with a total of %d (%d status objects); "
+                    "the frames' pass/fail lists hold it as %s" % (uu, g_, tot, len(st), w_))
     last = all_frames[-1][1].pass_fail_result
     ev = tuple(sorted((r.estimated_object.uuid, "T") for r in last.tp_object_results) + sorted((r.estimated_object.uuid, "F") for r in last.fp_object_results))
     gv = tuple(sorted(o.uuid for o in last.fn_objects)), tuple(sorted(o.uuid for o in last.tn_objects))
